@@ -138,6 +138,8 @@ def run_laze(d, args, extra_env=None, global_mode=True, timeout=20, task=None, c
             del env[k]
     if extra_env:
         env.update(extra_env)
+    if args.get("local") is not None and cwd is None:
+        global_mode, cwd = False, os.path.join(d, args["local"])
     cmd = [binary or common.LAZE, "-C", cwd or d, "build"]
     if global_mode:
         cmd.append("-g")
